@@ -2,7 +2,7 @@
 
 from __future__ import annotations
 
-from asyncio import ensure_future, gather
+from asyncio import CancelledError, ensure_future, gather
 from contextlib import suppress
 from copy import copy
 from typing import TYPE_CHECKING, Any, NamedTuple, cast
@@ -490,7 +490,8 @@ class IncrementalExecutor(Executor[DeliveryGroupMap]):
             async def await_result() -> WorkResult:
                 try:
                     data = await result
-                except Exception:
+                except (Exception, CancelledError):
+                    # also abort the work produced so far when being cancelled
                     abort_result = self.abort()
                     if self.is_awaitable(abort_result):
                         await abort_result
@@ -723,7 +724,8 @@ class IncrementalExecutor(Executor[DeliveryGroupMap]):
                         item,
                         None,
                     )
-                except Exception:
+                except (Exception, CancelledError):
+                    # also abort the work produced so far when being cancelled
                     abort_result = self.abort()
                     if is_awaitable(abort_result):
                         await abort_result
@@ -762,7 +764,8 @@ class IncrementalExecutor(Executor[DeliveryGroupMap]):
                             raw_error, item_type, field_details_list, item_path
                         )
                         resolved = None
-                except Exception:
+                except (Exception, CancelledError):
+                    # also abort the work produced so far when being cancelled
                     abort_result = self.abort()
                     if is_awaitable(abort_result):
                         await abort_result
